@@ -43,8 +43,17 @@ pub fn search_on_sorted_u64s<
     // This is the size of the window where doing a sequential read from this point is assumed to be equivalent in speed
     // to a seek, then do a read.  If the next point is within READ_WINDOW_SIZE entries of the current point, then
     // just do a continuous read.
+    #[cfg(not(xet_verif))]
     const READ_WINDOW_SIZE: u64 = 256;
+    #[cfg(not(xet_verif))]
     const EXPECTED_MAX_NUM_DUPLICATES: u64 = 4;
+    // verification hook: the two tuning constants can be shrunk so that small tables exercise every branch
+    #[cfg(xet_verif)]
+    #[allow(non_snake_case)]
+    let READ_WINDOW_SIZE: u64 = utils::verif::param("search_read_window").unwrap_or(256);
+    #[cfg(xet_verif)]
+    #[allow(non_snake_case)]
+    let EXPECTED_MAX_NUM_DUPLICATES: u64 = utils::verif::param("search_expected_dups").unwrap_or(4);
 
     let pair_size: u64 = (size_of::<Value>() + size_of::<u64>()) as u64;
 
